@@ -42,6 +42,7 @@ func main() {
 		os.Exit(3)
 	}
 	loadSec := time.Since(t0).Seconds()
+	loadGlobalStubs(prog, opts.harnessDir)
 	hs := findHarnesses(prog, pkgs, prop, opts.tier)
 	if only != "" {
 		want := map[string]bool{}
